@@ -171,6 +171,11 @@ pub struct RawConnection {
 }
 
 impl RawConnection {
+    /// `Connection::trigger_keepalive`: notify the keepaliver's hint (issue a keep-alive request now).
+    pub fn trigger_keepalive(&self) {
+        self.handle.keepalive_hint.notify_one();
+    }
+
     /// Must be called inside a tokio runtime. The returned receiver yields the label of the
     /// error that broke the connection.
     pub fn spawn<S>(
